@@ -101,7 +101,10 @@ def gen_case(rng: random.Random, tier: str) -> dict:
             # an editor session in which the user changes nothing (EditorClosedEvent -> reindex)
             steps.append({"op": "edit", "paths": [rng.choice(sorted(world["files"]))], "sessions": [{"edits": []}]})
         else:
-            steps.append({"op": "day", "days": rng.choice([1, 1, 2, 30, 365])})
+            steps.append({"op": "day", "days": rng.choice([1, 1, 2, 30, 365, -1, -3])})  # negative: the clock is set back
+    for st in steps:
+        if st["op"] in ("create", "reindex") and rng.random() < 0.06:
+            st["tick"] = rng.randrange(0, 8)  # fault: midnight strikes during the command
     return {"world": world, "steps": steps, "day0": core.EPOCH_DAY + rng.randrange(0, 400)}
 
 
@@ -191,9 +194,15 @@ def execute(case: dict, scratch: str) -> dict:
             rec.stat("days", st["days"])
             rec.note("day", days=st["days"])
             rec.probe("day-change-after-create", int(created))
+            rec.probe("fault:clock-set-back", int(st["days"] < 0))
             continue
-        o = sim.run(st)
-        rec.proc(st, None, o, sim)
+        fault = {"kind": "midnight-tick", "after": st["tick"]} if st.get("tick") is not None else None
+        o = sim.run({k: v for k, v in st.items() if k != "tick"}, fault=fault)
+        if fault and o.clock_reads > st["tick"]:
+            sim.day += 1
+            rec.probe("fault:midnight-tick")
+            rec.stat("days", 1)
+        rec.proc(st, fault, o, sim)
         if o.status != "ok":
             return rec.result(hist.viol("command-failed", _exc_cause(o), step=i, op=st, outcome=o.brief(), msg=(o.exc or {}).get("msg")))
         if not created:
